@@ -287,7 +287,9 @@ func ListeningOf(pid int) []string {
 func UDPDrops(local string) int64 {
 	var n int64
 	for _, s := range ProcNet() {
-		if strings.HasPrefix(s.Proto, "udp") && s.Local == local {
+		_, lp, _ := net.SplitHostPort(local)
+		_, sp, _ := net.SplitHostPort(s.Local)
+		if strings.HasPrefix(s.Proto, "udp") && lp == sp { // by port: the listener may be bound to the wildcard address
 			n += s.Drops
 		}
 	}
